@@ -268,6 +268,16 @@ class PipeGen:
         vals = sorted({v for v in t.data[cid] if v is not None and v is not UNDEF})
         if not vals or fam == "null":
             return ["fn", self.pick(["is_null", "is_not_null"]), [col], {}]
+        if fam == "float":
+            # computed floats may differ in the last place between the engines: the pivot lies strictly between two
+            # well separated values (or beside the only one), never on a value
+            gaps = [(a, b) for a, b in zip(vals, vals[1:]) if b - a > 1e-6 * max(1.0, abs(a), abs(b))]
+            if gaps:
+                a, b = self.pick(gaps[:6])
+                pivot = (a + b) / 2
+            else:
+                pivot = vals[0] + self.pick([-1.0, 1.0])
+            return ["fn", self.pick(["lt", "gt"]), [col, ["lit", float(pivot)]], {}]
         pivot = self.pick(vals[:6] + vals[-2:])
         op = self.pick(["eq", "ne"] if fam == "str" else ["le", "gt", "lt", "ge", "eq", "ne"])
         return ["fn", op, [col, ["lit", enc(pivot)]], {}]
